@@ -8,6 +8,7 @@ import Pcore.Proofs.ImmutResolve
 import Pcore.Proofs.ImmutWrites
 import Pcore.Generated.FieldWrites
 import Pcore.Proofs.ImmutMutable
+import Pcore.Generated.SerCalls
 /-!
 # C08 — Values are immutable: no operation disturbs a value obtained earlier
 
@@ -93,6 +94,12 @@ Full statement / proved / missing
                       Deferred object held at two places of one value (the implementation-layer model is a tree: exact for
                       the code as it is — by the frame theorem nothing is written, so sharing cannot be observed — and
                       only an approximation of a memoising mutant), functions other than the harness's `verif_list`.
+* SERIALIZING reads the value only: in the model `ser` is a constructor of a fresh copy (covered by `C08_refine`); in the
+                      code the fields of every value are unexported, so `serialization/serializer.go` could change a value
+                      only through a method it calls or through storage an accessor hands out:
+  `C08_serializer_reads_only` — every method the serializer invokes is a reviewed read-only / emitting / own method, and
+                      every assignment in it goes to its own state (the memo table `sc.values` keyed by identity,
+                      `refIndex`, `path`), to a plain local or into storage it created (`decide` on family sercalls).
 * MUTABLEHASHVALUE AS AN OBJECT (`Model/ImmutMutable.lean`: one object whose storage `Put`/`PutAll` replace, plus the `Hash`
                       methods it inherits by embedding; beyond the builder view of `Model/Coll.lean`):
   `MutableResultsImmutable frozen` — FULL statement (a `def … : Prop`): whatever a history over a builder hands out that is
@@ -530,6 +537,16 @@ theorem C08_resolve_memo_breaks (W : Writes) (hW : W.dfrArgs = true) :
   simp only at hW
   subst hW
   rcases b with _ | _ | _ <;> exact ⟨rfl, rfl, rfl, rfl⟩
+
+/-- obligation over the regenerated serializer facts: the serializer reads the value only; its memo table (keyed by
+    identity) and counters are its own state -/
+theorem C08_serializer_reads_only : SerFactsSafe serCalls serWrites := by decide
+
+/-- what the side condition refuses: a mutator called on the value, a write through something that is not the
+    serializer's own -/
+example : ¬ SerFactsSafe ("PutAll" :: serCalls) serWrites := by decide
+example : ¬ SerFactsSafe serCalls (("context.toData", "param") :: serWrites) := by decide
+example : ¬ SerFactsSafe serCalls (("context.process", "local-through") :: serWrites) := by decide
 
 /-- the table of seeded change C08-s11 -/
 def tblMemo : List FieldWrite := ⟨"deferred", "arguments", "deferred.Resolve", .write⟩ :: fieldWrites
